@@ -114,6 +114,72 @@ def gen_case(rng, cid, ver=None, twins=False):
     return {"id": cid, "ver": ver, "naccts": n, "bal": str(BAL), "blocks": blocks, "_twins": twins}
 
 
+def gen_vm_case(rng, cid):
+    """contract DEPLOY / CALL transactions whose VM behaviour is scripted through the payload
+    (engine determVM): success with a fee / storage write / event, runtime error with a fee
+    (included, receipt ERROR), VM system error after consuming a fee (producer drops the tx),
+    contract timeout (producer ends the block), runtime error whose fee exceeds the balance
+    (resetAccount fails: dropped) — mixed with transfers and governance txs, zero-fee and public
+    fee regimes, a coinbase account that collects the fees, several hardfork versions."""
+    ver = rng.choice([0, 2, 3, 4, 5])
+    n = rng.randrange(4, 6)
+    accs = [Acc() for _ in range(n)]
+    coinbase = n - 1
+    contracts = []          # (deployer, nonce) of successfully deployed contracts
+    blocks = []
+
+    def ok(i, tx):
+        accs[i].nonce += 1
+        tx.update({"from": i, "nonce": accs[i].nonce})
+        return tx
+
+    def bad(i, tx):
+        tx.update({"from": i, "nonce": accs[i].nonce + 1})
+        return tx
+
+    fee = lambda: str(rng.choice([0, 1, 700, 12345, 10 ** 9, 10 ** 15]))
+    for b in range(rng.randrange(2, 5)):
+        txs = []
+        timeout_tx = None
+        for _ in range(rng.randrange(2, 7)):
+            i = rng.randrange(n - 1)
+            r = rng.random()
+            if r < 0.2 or not contracts:
+                v = rng.choice(["ok", "ok", "ok", "vmstart", "rt"])
+                t = {"kind": "deploy", "payload": "%s|%s|init=%d|deployed" % (v, fee(), rng.randrange(100))}
+                if v == "vmstart":
+                    txs.append(bad(i, t))
+                else:
+                    txs.append(ok(i, t))
+                    if v == "ok":
+                        contracts.append((i, accs[i].nonce))
+            elif r < 0.7:
+                ctr = list(rng.choice(contracts))
+                v = rng.choice(["ok", "ok", "rt", "rt", "vmstart", "vmstart", "timeout", "broke"])
+                if v == "ok":
+                    txs.append(ok(i, {"kind": "call", "ctr": ctr, "payload": "ok|%s|k%d=v%d|%s" % (fee(), rng.randrange(4), rng.randrange(100), rng.choice(["", "set"]))}))
+                elif v == "rt":
+                    txs.append(ok(i, {"kind": "call", "ctr": ctr, "payload": "rt|%s" % fee()}))
+                elif v == "vmstart":
+                    txs.append(bad(i, {"kind": "call", "ctr": ctr, "payload": "vmstart|%s" % fee()}))
+                elif v == "broke":      # runtime error, fee larger than the sender's balance: resetAccount refuses
+                    txs.append(bad(i, {"kind": "call", "ctr": ctr, "payload": "rt|%d" % (50 * BAL)}))
+                elif timeout_tx is None:  # ends the block: kept for the end of the candidate list
+                    timeout_tx = (i, {"kind": "call", "ctr": ctr, "payload": "timeout|%s" % fee()})
+            elif r < 0.85:
+                txs.append(ok(i, {"kind": "transfer", "to": rng.randrange(n), "amt": str(rng.randrange(1, 10 ** 6))}))
+            elif r < 0.93 and not accs[i].staked:
+                txs.append(ok(i, {"kind": "stake", "amt": str(S)}))
+                accs[i].staked = True
+            else:
+                txs.append(bad(i, {"kind": "transfer", "to": rng.randrange(n), "amt": str(5 * BAL)}))
+        if timeout_tx is not None:
+            txs.append(bad(timeout_tx[0], timeout_tx[1]))
+        blocks.append({"ts": 1000 * (b + 1), "txs": txs})
+    blocks.append({"ts": 1000 * (len(blocks) + 1), "txs": []})
+    return {"id": cid, "ver": ver, "naccts": n, "bal": str(BAL), "public": rng.random() < 0.6, "coinbase": coinbase, "blocks": blocks, "_vm": True}
+
+
 def twin_case(cid, ver=2, pairs=6):
     """F10: `pairs` parity-twin pairs, all with equal tallies"""
     cs = []
